@@ -118,6 +118,7 @@ func Load(repoDir string) (*Ctx, error) {
 			c.SSA[p.Types] = sp
 		}
 	}
+	c.buildCanon()
 	return c, nil
 }
 
@@ -214,7 +215,14 @@ func (c *Ctx) LookupMethod(rel, typ, name string) *ssa.Function {
 	if n == nil {
 		return nil
 	}
-	return c.MethodOf(n, name)
+	if fn := c.MethodOf(n, name); fn != nil {
+		return fn
+	}
+	// renamed helper of a handler: resolve by role (roles.go)
+	if name == "abortOnPanic" && n.Obj().Pkg() != nil && strings.HasSuffix(n.Obj().Pkg().Path(), "pkg/protocol") {
+		return c.recoverBarrierOf(n)
+	}
+	return c.methodByRole(n, name)
 }
 
 func (c *Ctx) MethodOf(n *types.Named, name string) *ssa.Function {
@@ -296,7 +304,7 @@ func (c *Ctx) FuncName(fn *ssa.Function) string {
 		if n, ok := t.(*types.Named); ok {
 			tn = n.Obj().Name()
 		}
-		return fmt.Sprintf("%s.(%s%s).%s", pk, ptr, tn, fn.Name())
+		return fmt.Sprintf("%s.(%s%s).%s", pk, ptr, tn, canonFnName(fn))
 	}
 	return pk + "." + fn.Name()
 }
